@@ -148,6 +148,15 @@ class ProjectionMonitor(taps.Monitor):
         if self.name == "instance":
             if len(x) == m.n_active_components:
                 w = PCAVectorModel.project(m, np.asarray(r))
+                if np.asarray(w).shape != x.shape:
+                    # (a weight *vector*, one entry per active component - also when there is exactly one)
+                    ctx.fail("projecting_an_instance_does_not_return_its_weights", cls=cls, mech="shape_%s_instead_of_%s" % (np.asarray(w).shape, x.shape))
+                    return
+                try:
+                    PCAVectorModel.instance(m, w)
+                except Exception as ex:
+                    ctx.fail("projecting_an_instance_does_not_return_its_weights", cls=cls, mech="projected_weights_rejected_by_instance:" + type(ex).__name__)
+                    return
                 e = float(np.abs(w - x).max())
                 ctx.err("project_of_instance", e)
                 if not (e <= 1e-8 * scale):
@@ -313,7 +322,9 @@ def w_model(ctx, rng, i):
             far = 10.0 ** rng.uniform(3, 6)
             X = X + rng.choice([-1.0, 1.0], d) * far * 10.0
         Xin = X.copy() if rng.random() < 0.5 else [row.copy() for row in X]
-        model = PCAVectorModel(Xin, centre=centre, inplace=bool(rng.random() < 0.5))
+        # (the documented n_samples argument with a sequence of samples: "this many of them")
+        nkw = {"n_samples": n} if isinstance(Xin, list) and rng.random() < 0.4 else {}
+        model = PCAVectorModel(Xin, centre=centre, inplace=bool(rng.random() < 0.5), **nkw)
     else:
         samples, X = make_backed(rng, backing, n, d)
         if samples[0].as_vector().dtype.kind in "iu":
